@@ -734,16 +734,17 @@ Proof.
 Qed.
 
 Lemma step_at F hdr regs r i :
-  Forall (Inv F) regs ->
+  Forall (Inv F) regs -> m_guard F regs (OAt r i) = true ->
   step_post F regs (m_step cc F hdr regs (OAt r i)) (s_step F hdr (map (abs F) regs) (OAt r i)).
 Proof.
-  intros HI. simpl. rewrite nth_error_map'. destruct (nth_error regs r) as [t|] eqn:E; simpl; [|apply post_same; exact HI].
+  intros HI HG. simpl in *. rewrite nth_error_map'. destruct (nth_error regs r) as [t|] eqn:E; simpl; [|apply post_same; exact HI].
   assert (HIt : Inv F t) by (eapply nth_error_Forall; eauto).
   rewrite abs_length by exact HIt.
   destruct (resolve (t_len t) (ITake [i])) as [sel|] eqn:ER; [|apply post_same; exact HI].
   pose proof (resolve_bound _ _ _ ER) as HB.
   destruct t as [l|t]; simpl in *.
-  - destruct (l_index_ok F sel l HB HIt) as [HI' Habs].
+  - apply negb_true_iff in HG. rewrite HG.
+    destruct (l_index_ok F sel l HB HIt) as [HI' Habs].
     rewrite (l_rows_abs F _ HI'), Habs. apply post_same. exact HI.
   - apply post_same. exact HI.
 Qed.
@@ -1074,9 +1075,9 @@ Qed.
 
 (* ================================================================ where the unguarded statement fails (witnesses) *)
 Definition W_bed3 : fmt :=
-  {| f_kinds := [KStr; KInt 0; KInt 0]; f_layout := LDelim; f_concat := true; f_nowrite := []; f_sid := [0] |}.
+  {| f_kinds := [KStr; KInt 0; KInt 0]; f_layout := LDelim; f_concat := true; f_nowrite := []; f_ragged := false; f_eager_write_fails := false; f_default_hdr := []; f_sid := [0] |}.
 Definition W_fastq : fmt :=
-  {| f_kinds := [KStr; KStr; KStr]; f_layout := LFastq; f_concat := false; f_nowrite := [2]; f_sid := [] |}.
+  {| f_kinds := [KStr; KStr; KStr]; f_layout := LFastq; f_concat := false; f_nowrite := [2]; f_ragged := false; f_eager_write_fails := false; f_default_hdr := []; f_sid := [] |}.
 (* "c\t1\t2\n" *)
 Definition W_rec : rawrec := {| r_fields := [[99%Z]; [49%Z]; [50%Z]]; r_raw := [99; 9; 49; 9; 50; 10]%Z |}.
 (* "@r\nA\n+\nI\n" *)
@@ -1156,7 +1157,7 @@ Qed.
 (* SAM: a row whose optional-tags field is empty is written without the separating tab by the modified lazy
    write (SAMBuffer.join_fields) and with it by the eager writer — on a canonically spelled record "a\t\n" *)
 Definition W_sam : fmt :=
-  {| f_kinds := [KStr; KStr]; f_layout := LSam; f_concat := true; f_nowrite := []; f_sid := [] |}.
+  {| f_kinds := [KStr; KStr]; f_layout := LSam; f_concat := true; f_nowrite := []; f_ragged := false; f_eager_write_fails := false; f_default_hdr := []; f_sid := [] |}.
 Definition W_samrec : rawrec := {| r_fields := [[97%Z]; []]; r_raw := [97; 9; 10]%Z |}.
 Lemma sam_empty_tags_refuted :
   exists F hdr recs prog, wf F recs /\
